@@ -86,7 +86,7 @@ PROPS = {
         "stages": [{"kind": "cases", "name": "subscription-api", "driver": "SUBAPI", "n": {"quick": 200, "thorough": 4000}}, HUB_STAGE],
         "rule": "subscription-api: hubs with the subscription API on both transports; 1-4 subscribers with 1-4 selectors over the escaping alphabet (space, '+', '/', '%', "
                 "'?#', '.', '..', ';', non-ASCII, U+0000, templates, already-escaped), some gone, publishes in between; the collection, every per-topic collection "
-                "(plus one nobody uses), the dereference of every listed id by the URL the API returned, unknown selector / unknown subscriber pairs, If-None-Match (current and stale validators), HEAD on existing and absent resources, and "
+                "(plus one nobody uses), the dereference of every listed id by the URL the API returned, unknown selector / unknown subscriber pairs, If-None-Match (current and stale validators; every authorisation probe is repeated with the current validator: 304 for an allowed caller, still 401 for the others), HEAD on existing and absent resources, and "
                 "caller claims {exact URL, template, '*', unrelated, none, empty, the decoded form of an escaped URL, a template over the decoded form} on three URLs (one needing escaping); in 60% of the cases the history ends with a publish whose id the harness chose (to a topic somebody or nobody listens to) so that lastEventID / ETag are checked against an id known independently of the hub; judged against Model/SubApi.v (listing, deref, sub_url, can_receive). "
                 "non-trivial = at least two listed documents. hub-histories: " + HUB_RULE,
         "trusted": HUB_TRUST + ["gorilla/mux routing on the encoded path and net/http URL parsing: glue covered by the differential run only"],
@@ -117,13 +117,13 @@ PROPS = {
         "binaries": ["verif26"],
         "stages": [{"kind": "cases", "name": "virtual-clock", "driver": "C16", "binary": "verif26", "gotest": "TestC16", "n": {"quick": 6, "thorough": 60}}],
         "rule": "the real SubscribeHandler under testing/synctest's virtual clock (Go 1.26) with a ResponseWriter that enforces write deadlines against that clock: "
-                "every combination of write timeout {0, 3 s, 20 s} x dispatch timeout {0, 1 s, 7 s} x heartbeat {0, 1.7 s, 30 s} x token expiry {absent, 10 s, 40 s} "
-                "(dispatch timeout <= write timeout), each with n random publish timings (0-4 updates at distinct millisecond residues so that no two timers tie); "
+                "every combination of write timeout {0, 3 s, 20 s} x dispatch timeout {0, 1 s, 7 s} x heartbeat {0, 1.7 s, 30 s} x token expiry {absent, 5 s, 10 s, 40 s} "
+                "(including dispatch timeouts beyond the write timeout or beyond the token's remaining life: the disconnection instant is then already past when the connection opens and the hub ends it at once), each with n random publish timings (0-4 updates at distinct millisecond residues so that no two timers tie); "
                 "observed: the virtual instant of every successful write and of the handler's return, up to a 60 s horizon; compared with the timed automaton and "
                 "judged by the property predicate. non-trivial = at least one write and the hub ended the stream itself",
         "trusted": ["testing/synctest (virtual time, Go 1.26 runtime); the clock-enforcing ResponseWriter stands for net/http's deadline handling",
                     "Go's select picks any ready case: configurations where two timers are due at the same instant are not generated"],
-        "assumptions": ["writes take no time in the model; dispatch timeout <= write timeout"],
+        "assumptions": ["writes take no time in the model; a disconnection instant that is already past (negative on the model's time line) is observed as instant 0"],
     },
     "C17": {"stages": [SUBEV_STAGE, HUB_STAGE], "rule": SUBEV_RULE + " hub-histories: " + HUB_RULE, "trusted": HUB_TRUST + ["encoding/json document layout"],
             "assumptions": ["the hub is not closed while events are due (a closed transport refuses the dispatch of the event itself)"]},
@@ -138,14 +138,15 @@ PROPS = {
             "stages": [TRANS_STAGE, SUB_STAGES[1], HUB_STAGE, {"kind": "cases", "name": "shared-ids", "driver": "DUPID", "n": {"quick": 60, "thorough": 600}}, RACE_STAGE],
             "rule": TRANS_RULE.strip() + " schedules: " + SUB_RULE + " hub-histories: " + HUB_RULE + " shared-ids: 2-9 publishes whose ids are drawn from a pool of four (one of them "
                     "empty) and repeat the previous one half of the time, payloads distinct; the payloads on the stream of a subscriber connected before, and (Bolt) of one replaying "
-                    "from 'earliest' afterwards, must be the published ones, once each, in order (the models identify an update by its id: this stage covers what that abstraction hides). race-stress: unsteered concurrent publishers and subscribers on both transports under the Go race detector (supporting search).",
+                    "from 'earliest' afterwards, must be the published ones, once each, in order (the models identify an update by its id: this stage covers what that abstraction hides). The transport-schedule corpus includes two publishers with a connected (and a replaying) subscriber on the persistent transport: the live order must be the stored order. race-stress: unsteered concurrent publishers and subscribers on both transports under the Go race detector (supporting search).",
             "trusted": HUB_TRUST + ["yieldify rewriter + cooperative scheduler (harness/cmd/yieldify, harness/overlay/zz_vsched.go.txt) for the schedule-steered stage"],
             "assumptions": ["published update ids are distinct and below 2^40 (the model's range for subscription-event ids); exactly-once is stated for distinct ids",
                             ]},
     "C07": {"binaries": ["verifh", "verifs"],
-            "stages": [TRANS_STAGE, SUB_STAGES[1], HUB_STAGE, {"kind": "cases", "name": "subscriber-sequential", "driver": "SUBSEQ", "n": {"quick": 60, "thorough": 600}}],
+            "stages": [TRANS_STAGE, SUB_STAGES[1], HUB_STAGE, {"kind": "cases", "name": "subscriber-sequential", "driver": "SUBSEQ", "n": {"quick": 60, "thorough": 600}},
+                       {"kind": "cases", "name": "negotiation", "driver": "C08", "n": {"quick": 600, "thorough": 8000}}],
             "rule": TRANS_RULE.strip() + " schedules: " + SUB_RULE + " hub-histories: " + HUB_RULE + " subscriber-sequential: replays of 999/1000/1001/1500 updates through a real LocalSubscriber (buffer 1000): "
-                    "larger than the buffer means cut off with a gap-free prefix.",
+                    "larger than the buffer means cut off with a gap-free prefix. negotiation: the C08 stage (histories with duplicate ids, retention): the replay is everything after the FIRST occurrence of the requested id.",
             "trusted": HUB_TRUST + ["yieldify rewriter + cooperative scheduler for the schedule-steered stage", "bbolt cursor order and snapshot isolation of the read transaction"],
             "assumptions": ["a requested id that is stored only after the registration, or that retention has already dropped, is treated as unknown"]},
     "C09": {"binaries": ["verifh", "verifs"],
@@ -183,13 +184,15 @@ PROPS = {
         "assumptions": ["Ready is called once per subscriber (AddSubscriber does)"],
     },
     "C02": {
-        "stages": [{"kind": "cases", "name": "publish", "driver": "C02", "n": {"quick": 1, "thorough": 1}}],
+        "stages": [{"kind": "cases", "name": "publish", "driver": "C02", "n": {"quick": 1, "thorough": 1}}, {"kind": "cases", "name": "query-string-fields", "driver": "QTOPIC", "n": {"quick": 1, "thorough": 1}}],
         "exhaustive": True,
         "rule": "EXHAUSTIVE enumeration of the abstract shape table through real POSTs: publish claim in {key absent, null, [], literal hit, literal miss, the same literal twice, template + literal covering the same topic, "
                 "template hit, '*' first / middle / last, no token, bad signature} x topic lists of length 1-3 over {allowed, forbidden} in every position "
                 "x private {absent, present with value on / empty / 0} x compat {off, 7} x body {well-formed, no topic, bad retry, retry overflow, wrong "
                 "content type, unparsable (these five with 1-topic lists)} x {local, bolt}; after every request a sentinel publish separates what a witness "
                 "subscriber (every topic, every right) received because of it, and on bolt the ids appended to the history are read back. "
+                "query-string-fields (also exhaustive): every subset of {topic (one the claim does not cover), data, id, type, private} placed in the URL's query string x topic in the body or not x "
+                "private or not x {local, bolt}, with a claim covering only the body's topic: a witness of the uncovered topic must see nothing, and an accepted update must carry the body's id, data and type only. "
                 "non-trivial = well-formed body with a verifiable token",
         "trusted": ["net/http form decoding (the form the model sees is ParseForm's result on a copy of the request)", "JWT verification (C03): tokens are "
                     "known-valid or known-invalid by construction", "uritemplate oracle"],
@@ -227,11 +230,13 @@ PROPS = {
                         "topics are valid UTF-8 (decode iterates runes; on valid UTF-8 bytes 0x00/0x01 occur only as U+0000/U+0001)"],
     },
     "C10": {
-        "stages": [{"kind": "cases", "name": "retention", "driver": "C10", "n": {"quick": 600, "thorough": 6000}}],
+        "stages": [{"kind": "cases", "name": "retention", "driver": "C10", "n": {"quick": 600, "thorough": 6000}}, {"kind": "cases", "name": "reconfigured", "driver": "C10V", "n": {"quick": 150, "thorough": 3000}}],
         "rule": "publish sequences (1-40) on a real BoltTransport with size 0-12, cleanup frequency in {0, 0.3, 0.5, 0.9, 1}, payloads 10 B-8 KiB "
                 "(inline bucket / one leaf / several pages), close+reopen between publishes with probability 0.15, a publish the database refuses (40000-byte id) before 8% of them; after every publish the retained ids are "
                 "read back through an 'earliest' replay; each step must be one of the model's two outcomes (cleanup ran / did not run) and satisfy the window "
-                "predicate. non-trivial = more publishes than size (size>0) or a cleanup that had to delete several keys at once",
+                "predicate. reconfigured: 6-45 publishes with restarts (probability 0.2) at which the size (0-12) and the frequency ({0, 0.5, 1}) may change, as when an operator edits the configuration; each step is judged "
+                "with the configuration in force: contiguous up to the newest, nothing discarded while fewer than size newer updates exist, nothing older left when cleanup runs on every publication, nothing discarded when it never runs. "
+                "non-trivial = more publishes than size (size>0) or a cleanup that had to delete several keys at once; reconfigured: the size or the frequency changed",
         "trusted": ["bbolt by contract (ordered map, durable per-bucket sequence); the trigger's random draw is observed, not predicted"],
         "assumptions": ["fewer than 1000 retained updates per case (observation goes through one subscriber's buffer)"],
     },
